@@ -841,6 +841,18 @@ func (s *ShapeIndex) applyUpdatesInternal() {
 	// configurable memory footprint overhead.
 	t := newTracker()
 
+	// Updating an index that has already been built is not supported by the
+	// code below (the tracker cannot save and restore its state, and
+	// shrinkToFit would re-enter the index through Iterator while the lock is
+	// held). Until incremental updates are implemented, rebuild the index
+	// from all of its current shapes.
+	if !s.isFirstUpdate() {
+		s.cellMap = make(map[CellID]*ShapeIndexCell)
+		s.cells = nil
+		s.pendingAdditionsPos = 0
+		s.pendingRemovals = nil
+	}
+
 	// allEdges maps a Face to a collection of faceEdges.
 	allEdges := make([][]faceEdge, 6)
 
@@ -848,7 +860,9 @@ func (s *ShapeIndex) applyUpdatesInternal() {
 		s.removeShapeInternal(p, allEdges, t)
 	}
 
-	for id := s.pendingAdditionsPos; id < int32(len(s.shapes)); id++ {
+	// Shape ids are not reused, so after removals there can be ids beyond
+	// len(s.shapes); iterate over all ids handed out so far.
+	for id := s.pendingAdditionsPos; id < s.nextID; id++ {
 		s.addShapeInternal(id, allEdges, t)
 	}
 
@@ -858,7 +872,7 @@ func (s *ShapeIndex) applyUpdatesInternal() {
 	}
 
 	s.pendingRemovals = s.pendingRemovals[:0]
-	s.pendingAdditionsPos = int32(len(s.shapes))
+	s.pendingAdditionsPos = s.nextID
 	// It is the caller's responsibility to update the index status.
 }
 
